@@ -317,17 +317,19 @@ class SimLock:
     def acquire(self, blocking=True, timeout=-1):
         s = self._s
         s.yield_point("lock.acquire")
-        if self.owner is None:
-            self.owner = s.current
-            return True
-        if not blocking:
-            return False
-        self.contended += 1
-        s.contended += 1
-        ok = s.block(lambda: self.owner is None, None if timeout is None or timeout < 0 else timeout, f"lock:{self.name}")
-        if ok:
-            self.owner = s.current
-        return ok
+        first = True
+        while self.owner is not None:
+            if not blocking:
+                return False
+            if first:
+                self.contended += 1
+                s.contended += 1
+                first = False
+            ok = s.block(lambda: self.owner is None, None if timeout is None or timeout < 0 else timeout, f"lock:{self.name}")
+            if not ok and self.owner is not None:
+                return False
+        self.owner = s.current
+        return True
 
     def release(self):
         if self.owner is None:
